@@ -8,7 +8,7 @@ import re
 from ..core import Ctx, RuleResult, finding, short, walk_no_nested
 from ..model import AnalysisError, norm
 from ..mutants import Mut
-from ..rules import accum, fwd, dim, fresh, kind, posbound
+from ..rules import accum, loopfresh, fwd, dim, fresh, kind, posbound
 from ..rules.defuse import DefUse
 from ..rules.util import callee_name, calls_in, cfg_of, lin_str, linear, nodes_where
 from ..tables import C01_DIM_EXCEPTIONS
@@ -265,6 +265,7 @@ def run(ctx: Ctx):
         _scroll_clamp(ctx),
         accum.run_accum(p, "C01.11", "C01", floor=2),
         rule_hline_dedup(ctx),
+        loopfresh.run_loopfresh(p, "C01.13", "C01", floor=6),
     ]
 
 
